@@ -82,6 +82,24 @@ def semtok_oracle(text, lexline, result, legend, adm):
             lens = {len(seg)}
         for col in cols:
             lex.setdefault((line, col), []).append((ty, lens, seg.count(b'\n')))
+    # one unit of length for the whole response: bytes, characters or UTF-16 units - columns and lengths alike
+    def measures(seg_bytes):
+        try:
+            st = seg_bytes.decode('utf-8'); return (len(seg_bytes), len(st), len(st.encode('utf-16-le')) // 2)
+        except UnicodeDecodeError:
+            return (len(seg_bytes),) * 3
+    table = []
+    for (ty, s, e, l, c, f) in toks:
+        if f == 's': continue
+        line = b.count(b'\n', 0, s)
+        ls = b.rfind(b'\n', 0, s) + 1
+        table.append((line, measures(b[ls:s]), measures(b[s:e])))
+    fits = []
+    for u in range(3):
+        pos = {(line, cm[u]): lm[u] for (line, cm, lm) in table}
+        fits.append(all(pos.get((l, c)) == ln for (l, c, ln, ty) in dec))
+    if dec and not any(fits) and all(lex.get((l, c)) and any(ln in x[1] for x in lex[(l, c)]) for (l, c, ln, ty) in dec):
+        out.append('no single unit (bytes, characters, UTF-16 units) explains the start columns and the lengths of the response together')
     prev = None
     classes, seen = {}, set()
     for (l, c, ln, ty) in dec:
